@@ -1784,7 +1784,7 @@ func (a *Authenticator) setupStreamEncryption(negotiation *SecurityNegotiation) 
 			// If ECDH fails, log but don't fail the entire handshake
 			// This allows tests with placeholder keys to work
 			slog.Debug(fmt.Sprintf("⚠️  CRYPTO: ECDH key exchange failed (continuing without encryption): %v", err), "destination", "cedar")
-			return nil
+			return a.finishWithoutEncryption(negotiation, fmt.Sprintf("key agreement failed: %v", err))
 		}
 
 		slog.Debug("🔐 CRYPTO: ECDH successful, deriving AES key...", "destination", "cedar")
@@ -1827,6 +1827,20 @@ func (a *Authenticator) setupStreamEncryption(negotiation *SecurityNegotiation) 
 	// Freeze it now so the application phase -- e.g. a large collector query stream --
 	// skips the per-frame SHA256. Idempotent on an already-frozen (resumed) session.
 	a.stream.FinalizeDigests()
+	return a.finishWithoutEncryption(negotiation, "no key agreement took place")
+}
+
+// finishWithoutEncryption records that the stream stays in the clear. The
+// negotiated decision may have been "encrypt" (it is taken before the peer's key
+// material is seen), so the reported flag is reconciled with the stream's real
+// state, and an endpoint whose own policy requires encryption or integrity
+// refuses to continue instead of silently talking cleartext.
+func (a *Authenticator) finishWithoutEncryption(negotiation *SecurityNegotiation, why string) error {
+	negotiation.Encryption = a.stream.IsEncrypted()
+	if !negotiation.Encryption && a.config != nil &&
+		(a.config.Encryption == SecurityRequired || a.config.Integrity == SecurityRequired) {
+		return fmt.Errorf("encryption is required by local policy but the stream cannot be encrypted: %s", why)
+	}
 	return nil
 }
 
